@@ -504,6 +504,46 @@ def one_call_table(ctx, rule, deep=False):
                        + (f' (match raises: {odd})' if odd else '') + ': the answer for an element depends on what the call evaluated before it, or on where the call started')
 
 
+def argument_reuse_table(ctx, rule):
+    """What a call returns is a function of the VALUES of its arguments at the time of the call: a namespaces / custom dict that
+    its owner changes in place between two calls (Beautiful Soup keeps one prefix map per document and adds to it) is read
+    again - the second call answers like a call with a new dict of the same contents."""
+    doc, order, L = make_doc([('r', {'_label': 'r'}, [('p', {'_ns': 'urn:a', '_label': 'pa'}, []), ('p', {'_ns': 'urn:b', '_label': 'pb'}, []), ('q', {'_label': 'q', 'class': 'k'}, [])])], 'xml')
+    bad = None
+    n = 0
+
+    def sel(text, **kw):
+        nonlocal n
+        n += 1
+        st, v = api(ctx, 'select', text, doc, **kw)
+        return [label(x) for x in v] if st == 'ok' else f'raises {v}'
+    plans = [('namespaces', 'x|p', {'x': 'urn:a'}, [('set', 'x', 'urn:b'), ('set', 'y', 'urn:a'), ('del', 'x', None)]),
+             ('namespaces', 'p', {}, [('set', '', 'urn:b'), ('set', '', 'urn:a'), ('del', '', None)]),
+             ('custom', ':--c', {':--c': 'p'}, [('set', ':--c', 'q'), ('set', ':--c', '.k, r'), ('set', ':--d', 'p')]),
+             ('custom', 'r > :--c', {':--c': ':--d', ':--d': 'q'}, [('set', ':--d', 'p'), ('del', ':--d', None)])]
+    for argname, text, start, edits in plans:
+        mine = dict(start)
+        history = [sel(text, **{argname: mine})]
+        for op, k, v in edits:
+            if op == 'set':
+                mine[k] = v
+            else:
+                del mine[k]
+            got = sel(text, **{argname: mine})
+            want = sel(text, **{argname: dict(mine)})
+            ok = got == want
+            rule.instance({'argument': argname, 'selector': text, 'contents_now': dict(mine), 'same_object_as_before': True, 'result': got, 'with_a_new_dict': want},
+                          key=f'reuse|{argname}|{text}|{sorted(mine.items())}')
+            if not ok and bad is None:
+                bad = (argname, text, dict(start), dict(mine), got, want)
+    rule.obligation(bad is None)
+    if bad is not None:
+        argname, text, start, now, got, want = bad
+        rule.violation(f'argument reuse `{text}` {argname}', 'soupsieve/__init__.py (compile) / css_parser.py (process_custom, _cached_css_compile)',
+                       f'select({text!r}, {argname}=d) with d == {now!r}, after an earlier call with the same dict object when it held {start!r}, gives {got}; '
+                       f'a call with a new dict of the same contents gives {want}: the result depends on an earlier call, not on the arguments')
+
+
 HOSTILE = ['a', 'A', '0', '-', '-0', '--', 'a b', 'a b', 'a\tb', 'a\x0bb', 'a b', 'a\x1cb', 'a.b', 'a#b', 'a:b', 'a"b', "a'b", 'a\\b', 'a\x7fb', '\x01',
            '\x80', '\x9f', 'é', '\U0001f600', '\U0010ffff', '�', '(', '*', '[x]', 'a,b', 'a>b', '\x00z']
 
